@@ -105,6 +105,7 @@ class PointChargeBlock:
     axes (M1, L1, M2, L2, N); the Boys function handed over is the class's."""
 
     fp = True  # cross-check: the same contract on the unmodified float64 code at sampled inputs (bounded)
+    fp_nsamp = (1, 3)
 
     def fp_shapes(self, tier):
         sh = self.shapes(tier)
@@ -240,6 +241,16 @@ class TwoElecKernel:
     any Boys function satisfying S6; component lists in the order given"""
 
     function = "gbasis.integrals._two_elec_int._compute_two_elec_integrals(_angmom_zero)"
+    fp_tol = 1e-6  # of the Schwarz scale sqrt((ab|ab)(cd|cd)) of the element, as in the property statement
+
+    def fp_domain_for(self, shape):
+        # the property's stated domain: exponents 0.1..10, 0.2..5 when an f shell is present; centres of order 1
+        rng = (0.2, 5.0) if max(shape["l"]) >= 3 else (0.1, 10.0)
+        return {"pos": rng, "real": 1.5, "by_prefix": {"d": (0.2, 2.0)}}
+
+    def fp_shapes(self, tier):
+        sh = [s for s in self.shapes(tier) if s.get("part", [0])[0] == 0]
+        return sh if tier == "quick" else sh[::3]
 
     def shapes(self, tier):
         out = []
@@ -288,6 +299,7 @@ class TwoElecKernel:
         for ps in itertools.product(*[range(k) for k in K]):
             f = coulomb.two_electron(SF, *[ses[i][ps[i]] for i in range(4)], *[list(c) for c in scs])
             norms = [{c: basisfn.prim_norm(SF, ses[i][ps[i]], c) for c in comps[i]} for i in range(4)]
+            norms_of = norms
             for n_, idx in enumerate(itertools.product(*[range(len(c)) for c in comps])):
                 if shape.get("part") and n_ % shape["part"][1] != shape["part"][0]:
                     continue
@@ -304,7 +316,16 @@ class TwoElecKernel:
                     for i in range(4):
                         t = t * sds[i][ps[i], ms[i]]
                     tot = tot + t
-                M.eq(name + "/out" + tag(idx + ms), out[idx + ms], tot)
+                sc = None
+                if not M.symbolic and all(k == 1 for k in K):
+                    # Schwarz scale of this element: sqrt((ab|ab)(cd|cd)) with the same normalisation and coefficients
+                    cc = [comps[i][idx[i]] for i in range(4)]
+                    fab = coulomb.two_electron(SF, ses[0][0], ses[1][0], ses[0][0], ses[1][0], list(scs[0]), list(scs[1]), list(scs[0]), list(scs[1]))
+                    fcd = coulomb.two_electron(SF, ses[2][0], ses[3][0], ses[2][0], ses[3][0], list(scs[2]), list(scs[3]), list(scs[2]), list(scs[3]))
+                    nab = (norms_of[0][cc[0]] * norms_of[1][cc[1]] * sds[0][0, ms[0]] * sds[1][0, ms[1]]) ** 2
+                    ncd = (norms_of[2][cc[2]] * norms_of[3][cc[3]] * sds[2][0, ms[2]] * sds[3][0, ms[3]]) ** 2
+                    sc = SF.sqrt(abs(fab(cc[0], cc[1], cc[0], cc[1]) * nab * fcd(cc[2], cc[3], cc[2], cc[3]) * ncd))
+                M.eq(name + "/out" + tag(idx + ms), out[idx + ms], tot, scale=sc)
 
 
 class ERIBlock:
@@ -314,6 +335,7 @@ class ERIBlock:
     Boys function is handed over; out[m1,c1,m2,c2,m3,c3,m4,c4] = K[c1,c2,c3,c4,m1,m2,m3,m4]"""
 
     fp = True  # cross-check: the same contract on the unmodified float64 code at sampled inputs (bounded)
+    fp_nsamp = (1, 3)
 
     def fp_shapes(self, tier):
         sh = self.shapes(tier)
@@ -394,6 +416,7 @@ class ERISymmetry:
     (cd|ab) = ... on the real kernels (bra/ket are treated asymmetrically by the recursion)"""
 
     fp = True  # cross-check: the same contract on the unmodified float64 code at sampled inputs (bounded)
+    fp_nsamp = (1, 3)
 
     def fp_shapes(self, tier):
         sh = self.shapes(tier)
